@@ -32,6 +32,45 @@ DEPENDS = [
 ]
 OEXPR = "pest_meta::optimizer::OptimizedExpr"
 RTYPE = "pest_meta::ast::RuleType"
+
+_TS = "proc_macro2::TokenStream"
+_GEN_SIGS = {
+    "generate_rule": (["pest_meta::optimizer::OptimizedRule"], _TS),
+    "generate_skip": (["&[pest_meta::optimizer::OptimizedRule]"], _TS),
+    "generate_patterns": (["&[pest_meta::optimizer::OptimizedRule]", "bool"], _TS),
+    "generate_builtin_rules": ([], "alloc::vec::Vec<(&'static str, proc_macro2::TokenStream)>"),
+    "generate_expr": (["pest_meta::optimizer::OptimizedExpr"], _TS),
+    "generate_expr_atomic": (["pest_meta::optimizer::OptimizedExpr"], _TS),
+}
+
+
+def gen_fn(gen, role):
+    """The generator function known on the pinned tree as `role`: by that name if it still exists, else the function of
+    pest_generator::generator with the same signature (private names and modules may change); the two expression
+    generators share a signature and are told apart by whether their templates mention the implicit `skip`."""
+    if gen is None:
+        return None
+    b = gen.fn("pest_generator::generator::" + role)
+    if b is not None or role not in _GEN_SIGS:
+        return b
+    ins, out = _GEN_SIGS[role]
+    cands = [x for x in gen.bodies if str(x.get("path", "")).startswith("pest_generator::generator::") and not x.get("exp")
+             and "::tests::" not in x["path"] and x.get("body") is not None and x.get("dk") in ("Fn", "AssocFn")
+             and (x.get("inputs") or []) == ins and str(x.get("output")) == out]
+    if role in ("generate_expr", "generate_expr_atomic"):
+        def mentions_skip(x):
+            return any(kind(y) == "Lit" and y.get("v") == "skip" for y in walk(x["body"]))
+        cands = [x for x in cands if mentions_skip(x) == (role == "generate_expr")]
+    return cands[0] if len(cands) == 1 else None
+
+
+def gen_path(gen, role):
+    b = gen_fn(gen, role)
+    return b["path"] if b is not None else "pest_generator::generator::" + role
+
+
+def gen_name(gen, role):
+    return gen_path(gen, role).split("::")[-1]
 GEN = "pest_generator::generator"
 VM = "pest_vm::Vm"
 GENFILE = "generator/src/generator.rs"
@@ -144,7 +183,7 @@ def arm_env(ctx, fn, arm, ctxname, outer_env=None, variant=None):
     base = outer_env.get("__base__") if outer_env else None
     for nm, i in binds.items():
         env[nm] = ("child", (base + (i,)) if base is not None else i)
-    genfns = {GEN + "::generate_expr": "na", GEN + "::generate_expr_atomic": "at"}
+    genfns = {gen_path(ctx.gen, "generate_expr"): "na", gen_path(ctx.gen, "generate_expr_atomic"): "at"}
     # lets of the arm body, in order
     body = arm["body"]
     stmts = body.get("stmts", []) if kind(body) == "Block" else []
@@ -368,7 +407,7 @@ def expr_rule(rep, ctx, sfx):
         return 0, 0, []
     programs = dis = 0
     samples = []
-    for (fnpath, c) in ((GEN + "::generate_expr", "na"), (GEN + "::generate_expr_atomic", "at")):
+    for (fnpath, c) in ((gen_path(ctx.gen, "generate_expr"), "na"), (gen_path(ctx.gen, "generate_expr_atomic"), "at")):
         g = gen_arm_terms(ctx, fnpath, c)
         if g is None:
             r.lost(fnpath)
@@ -664,7 +703,7 @@ def rule_rule(rep, ctx, sfx):
     r = rep.rule("C02.RULE" + sfx, 10,
                  "per RuleType x {ordinary, WHITESPACE/COMMENT}: wrapper chain (rule / atomic(kind), outer to "
                  "inner) of generate_rule == Vm::parse_rule")
-    gfn = ctx.gen.fn(GEN + "::generate_rule")
+    gfn = gen_fn(ctx.gen, "generate_rule")
     vfn = ctx.vm.fn(VM + "::parse_rule")
     if gfn is None or vfn is None:
         r.lost("generate_rule / Vm::parse_rule")
@@ -714,7 +753,7 @@ def rule_rule(rep, ctx, sfx):
             return val if c["path"].endswith("::eq") else (not val)
         return None
 
-    genfns = {GEN + "::generate_expr": "na", GEN + "::generate_expr_atomic": "at"}
+    genfns = {gen_path(ctx.gen, "generate_expr"): "na", gen_path(ctx.gen, "generate_expr_atomic"): "at"}
 
     def eval_expr_init(n, ty, ws, env):
         n = peel(n)
@@ -939,7 +978,7 @@ def resolve_rule(rep, ctx, sfx):
 
 def skip_rule(rep, ctx, sfx):
     r = rep.rule("C02.SKIP" + sfx, 4, "the four cases of generate_skip == the four cases of Vm::skip")
-    gfn = ctx.gen.fn(GEN + "::generate_skip")
+    gfn = gen_fn(ctx.gen, "generate_skip")
     vfn = ctx.vm.fn(VM + "::skip")
     if gfn is None or vfn is None:
         r.lost("generate_skip / Vm::skip")
@@ -969,6 +1008,19 @@ def skip_rule(rep, ctx, sfx):
             if kind(e) == "Path" and e.get("res") == "local" and e["id"] in lets:
                 e = peel(lets[e["id"]][0])
             lits = [x.get("v") for x in walk(e) if kind(x) == "Lit" and x.get("lk") == "str"]
+            if not lits and kind(e) == "Lit" and e.get("lk") == "bool" and kind(peel(scr["elems"][len(names)])) == "Path":
+                # a flag found by a hand-written scan: `let mut whitespace = false; for rule in rules { match
+                # rule.name.as_str() { "WHITESPACE" => whitespace = true, .. } }` - the name is the string pattern (or the
+                # string compared with) that guards the assignment of `true`
+                lid = peel(scr["elems"][len(names)])["id"]
+                fctx = hirq.Ctx(fn)
+                for a in walk(fn["body"]):
+                    if kind(a) == "Assign" and hirq.local_id(a["l"]) == lid and hirq.lit_value(a["r"]) is True:
+                        for g in fctx.guards(a):
+                            if g[0] == "arm":
+                                lits += [q.get("v") for q in walk(g[1]["arms"][g[2]]["pat"]) if q.get("k") == "PLit" and q.get("lk") == "str"]
+                            elif g[0] in ("if", "guard"):
+                                lits += [x.get("v") for x in walk(g[1]) if kind(x) == "Lit" and x.get("lk") == "str"]
             names.append(lits[0] if lits else "?")
         return names
     programs = dis = 0
@@ -976,7 +1028,7 @@ def skip_rule(rep, ctx, sfx):
     if va and (gscr is None or vscr is None or scr_order(gscr, gfn) != scr_order(vscr, vfn)):
         r.violation("flag-order", where(vfn["body"]), "the (WHITESPACE, COMMENT) flag tuples are built in different "
                     "orders (%s vs %s)" % (scr_order(gscr, gfn) if gscr else None, scr_order(vscr, vfn) if vscr else None))
-    gmac = [m for m in ctx.macros[GENFILE] if m["macro"] == "generate_rule" and m["fn"] == "generate_skip"]
+    gmac = [m for m in ctx.macros[GENFILE] if m["macro"] == "generate_rule" and m["fn"] == gen_name(ctx.gen, "generate_skip")]
     evaluated = {}
     if not va and ga and gscr is not None and scr_order(gscr, gfn) != ["WHITESPACE", "COMMENT"]:
         r.violation("flag-order", where(gfn["body"]), "generate_skip builds its flag tuple as %s" % scr_order(gscr, gfn))
@@ -1226,7 +1278,7 @@ def entry_rule(rep, ctx, f, sfx):
     if not raw:
         r.violation("generator", GENFILE, "the generated Parser::parse does not call ::pest::state")
     # start-rule dispatch: every `Rule::x` arm calls the function of the same rule
-    arms = [m for m in ctx.macros[GENFILE] if m["macro"] == "quote" and m["fn"] == "generate_patterns" and "=>" in m.get("raw", "")]
+    arms = [m for m in ctx.macros[GENFILE] if m["macro"] == "quote" and m["fn"] == gen_name(ctx.gen, "generate_patterns") and "=>" in m.get("raw", "")]
     r.instance("generator:dispatch", "%s:%s" % (GENFILE, arms[0]["line"]) if arms else "", "%d arm templates" % len(arms))
     if not arms:
         r.violation("generator:dispatch", GENFILE, "start-rule dispatch templates not found in generate_patterns")
